@@ -16,8 +16,11 @@ from typing import Any, Dict, List, Optional
 
 VERIF = os.path.dirname(os.path.dirname(os.path.abspath(__file__)))
 REPO = os.environ.get('VERIF_REPO', '/repo')
-EVIDENCE_DIR = os.path.join(VERIF, 'evidence')
-REPLAY_DIR = os.path.join(VERIF, 'replays')
+# VERIF_OUT redirects what a run writes (evidence, replays): used when the checks are pointed at a scratch worktree
+# with a seeded change (VERIF_REPO), so that the committed evidence of /repo itself is not overwritten
+_OUT = os.environ.get('VERIF_OUT', VERIF)
+EVIDENCE_DIR = os.path.join(_OUT, 'evidence')
+REPLAY_DIR = os.path.join(_OUT, 'replays')
 KNOWN_FILE = os.path.join(VERIF, 'known_findings.txt')
 
 # verdicts of a single obligation
